@@ -169,6 +169,10 @@ pub fn swarm(prop: &str, seed: u64) -> (GenCfg, Suffix, Shape) {
             c.events = r.range(6, 40);
             shape = Shape::Prefix;
             c.w_op[OW_WEAK_LINK] = c.w_op[OW_WEAK_LINK].max(2);
+            // fault kind (a third of the schedules): a destructor that unwinds while the sweep runs
+            // it. What the crate then leaks by construction is exempt (§2.7); a weakly referenced
+            // value whose destructor unwound stays an ordinary shell and has to be released like one
+            c.w_event[EW_DROP_FAULT] = if r.chance(1, 3) { 2 } else { 0 };
         }
         "C03" => {
             c.w_op[OW_BURST] = 3;
